@@ -29,8 +29,8 @@ func init() {
 				{Name: "short-prefix-counts-as-default", File: "allow_list.go", Old: "\t\tif maskBits == 0 {\n\t\t\trules.defaultSet = true", New: "\t\tif maskBits <= 1 {\n\t\t\trules.defaultSet = true", Rule: "C38.fold"},
 				{Name: "families-share-state", File: "allow_list.go", Old: "\t\tif ipNet.Addr().Is4() {\n\t\t\trules = &rules4\n\t\t} else {\n\t\t\trules = &rules6\n\t\t}\n", New: "\t\trules = &rules4\n\t\tif ipNet.Addr().Is6() && maskBits > 0 {\n\t\t\trules = &rules6\n\t\t}\n", Rule: "C38.fold"},
 				{Name: "mismatch-compares-first-flag", File: "allow_list.go", Old: "\t\t\tif value != rules.allValues {\n\t\t\t\trules.allValuesMatch = false", New: "\t\t\tif value != rules.firstValue {\n\t\t\t\trules.allValuesMatch = false", Rule: "C38.fold"},
-				{Name: "config-prefix-not-unmapped", File: "allow_list.go", Old: "\t\tipNet = netip.PrefixFrom(ipNet.Addr().Unmap(), ipNet.Bits())\n\n\t\ttree.Insert(ipNet, value)", New: "\t\ttree.Insert(ipNet, value)", Rule: "C38.mapped"},
-				{Name: "range-prefix-not-unmapped", File: "allow_list.go", Old: "remoteAllowRanges.Insert(netip.PrefixFrom(ipNet.Addr().Unmap(), ipNet.Bits()), allowList)", New: "remoteAllowRanges.Insert(ipNet, allowList)", Rule: "C38.mapped"},
+				{Name: "config-prefix-not-unmapped", File: "allow_list.go", Old: "\t\t\tipNet = netip.PrefixFrom(a.Unmap(), ipNet.Bits()-96)\n\t\t}\n\n\t\ttree.Insert(ipNet, value)", New: "\t\t\t_ = a\n\t\t}\n\n\t\ttree.Insert(ipNet, value)", Rule: "C38.mapped"},
+				{Name: "range-prefix-not-unmapped", File: "allow_list.go", Old: "\t\t\tipNet = netip.PrefixFrom(a.Unmap(), ipNet.Bits()-96)\n\t\t}\n\n\t\tremoteAllowRanges.Insert(ipNet, allowList)", New: "\t\t\t_ = a\n\t\t}\n\n\t\tremoteAllowRanges.Insert(ipNet, allowList)", Rule: "C38.mapped"},
 				{Name: "interfaces-mixed-accepted", File: "allow_list.go", Old: "\t\t\tif allow != allValues {\n\t\t\t\treturn nil, fmt.Errorf(\"config `%s.interfaces` values must all be the same true/false value\", k)\n\t\t\t}\n", New: "\t\t\t_ = allValues\n", Rule: "C38.fold"},
 				{Name: "name-default-not-negated", File: "allow_list.go", Old: "\treturn !al.nameRules[0].Allow\n", New: "\treturn al.nameRules[0].Allow\n", Rule: "C38.names"},
 				{Name: "name-match-returns-constant", File: "allow_list.go", Old: "\t\tif rule.Name.MatchString(name) {\n\t\t\treturn rule.Allow\n\t\t}", New: "\t\tif rule.Name.MatchString(name) {\n\t\t\treturn true\n\t\t}", Rule: "C38.names"},
